@@ -596,12 +596,14 @@ def compile_graph(nodes, sup, graphs_raw, mode="MCS", prune=True, **kw):
             # to_connected_graph (prune=False) attaches a vertex that ends exactly when a supervisor step starts to that
             # step even if it *depends* on it (zero delays, exact tie) -> cycle. Observed on the unchanged tree; see DESIGN.
             raise CompileUnsupported(f"prune=False with zero-delay ties: {ex}")
-        if isinstance(ex, KeyError) and prune and ex.args and ex.args[0] in nodes and any(fr.name == "get_buffer_sizes" for fr in traceback.extract_tb(ex.__traceback__)):
+        if isinstance(ex, KeyError) and ex.args and ex.args[0] in nodes and any(fr.name == "get_buffer_sizes" for fr in traceback.extract_tb(ex.__traceback__)):
             # with pruning, a node none of whose recorded steps is an ancestor of the last supervisor step of the horizon (short
             # horizon, node reachable only through slow/skipped connections) has no vertex in the compiled graphs, but its
             # receivers' windows still name it: Timings.get_buffer_sizes (and init_record) raise KeyError. Observed on the
             # unchanged tree (rand_spec seed 646725470); a loud limitation of the library, not a wrong result; see DESIGN.
-            raise CompileUnsupported(f"prune=True: node {ex.args[0]} has no vertex among the supervisor's ancestors: KeyError in get_buffer_sizes")
+            # The same happens without pruning when none of the node's steps finishes before a supervisor step of the horizon
+            # starts (a slow node with a long computation delay in a short recording; sched_case seed 903409789).
+            raise CompileUnsupported(f"prune={prune}: node {ex.args[0]} has no vertex in the compiled horizon: KeyError in get_buffer_sizes")
         if not isinstance(ex, AssertionError):
             raise
 
